@@ -208,3 +208,13 @@ func (obj *Vector) SetFillPointer(fp int) {
 	}
 	obj.FillPtr = fp
 }
+
+// LoadForm returns a form that can be evaluated to create the object. A
+// fill-pointer is part of the vector.
+func (obj *Vector) LoadForm() Object {
+	form := obj.Array.LoadForm().(List)
+	if 0 <= obj.FillPtr {
+		form = append(form, Symbol(":fill-pointer"), Fixnum(obj.FillPtr))
+	}
+	return form
+}
